@@ -397,3 +397,64 @@ def _judge(name, k, ret, R, H, consumed):
             return None
         return 'delay interval is [%r,%r], expected [d,d] with d = remaining - own horizon' % (iv[1], iv[2])
     return 'delayed branch is not TimedOnce(rebuilt node, [d,d])'
+
+
+# ------------------------------------------------------------------------------------------------- R-ORIGIN
+PAST_OPS = ('Once', 'Historically', 'Since', 'Previous', 'StrongPrevious', 'Rise', 'Fall', 'TimedOnce', 'TimedHistorically', 'TimedSince')
+
+
+def check_origin(ix, rep, pcls, rule='R-ORIGIN'):
+    """A past operator whose operand looks ahead: after the rewrite its operand is delayed by the operand's look-ahead H, so the first H samples
+    of the delayed operand stand for times *before* the origin of the original trace (warm-up values of once[d,d], partial windows, or real
+    earlier data where `next` was removed).  The original past operator never sees such samples; the rewritten one ranges over them unless the
+    handler masks them or refuses operands with positive look-ahead."""
+    nodes = D.node_classes(ix)
+    byname = {c.name: c for c in nodes}
+    pd = D.dispatch_of(ix, pcls)
+    n = 0
+    for name in PAST_OPS:
+        nc = byname.get(name)
+        if nc is None:
+            continue
+        meth, _ = pd.method_for(nc, ix)
+        cat, info, f = D.classify(ix, pcls, meth) if meth else ('missing', None, None)
+        if cat != 'compute':
+            continue
+        n += 1
+        rep.analysed(f)
+        nodep = f.node.args.args[1].arg
+        # the look-ahead handed to the operands
+        hname = None
+        for st in f.node.body:
+            if isinstance(st, ast.Assign) and isinstance(st.targets[0], ast.Name) and 'horizons[%s]' % nodep in ast.unparse(st.value).replace(' ', ''):
+                hname = st.targets[0].id
+        visits = [c for c in ast.walk(f.node) if isinstance(c, ast.Call) and D._self_call(c) == 'visit' and len(c.args) >= 2]
+        passes_h = [c for c in visits if hname and isinstance(c.args[1], ast.Name) and c.args[1].id == hname]
+        slot = 'past-over-future:%s' % name
+        # (a) refuses operands with look-ahead
+        guarded = False
+        for st in ast.walk(f.node):
+            if isinstance(st, ast.If) and hname and any(isinstance(x, ast.Name) and x.id == hname for x in ast.walk(st.test)) \
+                    and st.body and isinstance(st.body[-1], ast.Raise):
+                guarded = True
+        # (b) masks: the rebuilt operator is not applied to the bare rewritten operand
+        bound = {}
+        for st in f.node.body:
+            if isinstance(st, ast.Assign) and isinstance(st.targets[0], ast.Name) and isinstance(st.value, ast.Call) and D._self_call(st.value) == 'visit':
+                bound[st.targets[0].id] = st.value
+        bare = False
+        for c in ast.walk(f.node):
+            if isinstance(c, ast.Call) and isinstance(c.func, ast.Name) and c.func.id == name:
+                if any(isinstance(a, ast.Name) and a.id in bound for a in c.args):
+                    bare = True
+        if not passes_h:
+            rep.ok(rule, f.module.rel, f.qual, slot, 'the operands are rewritten with no look-ahead of their own', f.node.lineno)
+        elif guarded:
+            rep.ok(rule, f.module.rel, f.qual, slot, 'an operand with positive look-ahead is refused', f.node.lineno)
+        elif not bare:
+            rep.ok(rule, f.module.rel, f.qual, slot, 'the rewritten operand is wrapped before %s is applied to it' % name, f.node.lineno)
+        else:
+            rep.fail(rule, f.module.rel, f.qual, slot, 'the past operator %s is rebuilt directly over its delayed operand: when the operand looks ahead by H > 0 samples, the first H samples of '
+                     'the delayed operand stand for times before the origin, and the rewritten %s ranges over them -- its value differs from the offline value at sample i-h '
+                     '(for unbounded once/historically/since: for ever)' % (name, name), f.node.lineno)
+    return n
